@@ -17,7 +17,10 @@ def enc_content(c):
         return {'t': 'int', 'v': str(c)}
     if isinstance(c, str):
         return {'t': 'str', 'v': [ord(ch) for ch in c]}
-    if isinstance(c, (list, tuple)):
+    if isinstance(c, tuple):
+        # (content, mode constant or None[, encoding or None]): a part with its own mode / encoding (encoder.prepare_data)
+        return {'t': 'tuple', 'v': [enc_content(c[0])] + list(c[1:])}
+    if isinstance(c, list):
         return {'t': 'list', 'v': [enc_content(x) for x in c]}
     raise TypeError(type(c))
 
@@ -30,7 +33,12 @@ def dec_content(d):
         return int(d['v'])
     if t == 'str':
         return ''.join(chr(x) for x in d['v'])
+    if t == 'tuple':
+        return tuple([dec_content(d['v'][0])] + list(d['v'][1:]))
     return [dec_content(x) for x in d['v']]
+
+
+MODE_CONST = {1: 'numeric', 2: 'alphanumeric', 4: 'byte', 8: 'kanji', 13: 'hanzi'}
 
 
 def call(api, content, **kw):
@@ -88,7 +96,15 @@ def expectation(content, kw):
         mask_req = -1 if mask is None else int(mask)
     except (TypeError, ValueError):
         mask_req = -1
-    return {'parts': [part_desc(x, mode, encoding) for x in items], 'eci': bool(kw.get('eci', False)),
+    parts = []
+    for x in items:
+        if isinstance(x, tuple):
+            pm = MODE_CONST.get(x[1]) if len(x) > 1 and x[1] else mode
+            pe = x[2] if len(x) > 2 and x[2] else encoding
+            parts.append(part_desc(x[0], pm, pe))
+        else:
+            parts.append(part_desc(x, mode, encoding))
+    return {'parts': parts, 'eci': bool(kw.get('eci', False)),
             'mask_req': mask_req, 'faults': [], 'exh_single': False}
 
 
